@@ -463,6 +463,9 @@ def run(ctx):
 
     _sp14.mass_matrices(ctx)  # (tools/wiring.py) strong forms and grid-function algebra go through the mass-matrix helpers and the norm
     _gf14.l2_norm_rule(ctx)
+    from .. import state as _state
+
+    _state.process_state(ctx)  # no result object keeps its per-call data in state shared between instances or calls
 
 
 def combinator_shapes(ctx):
